@@ -359,10 +359,22 @@ func (c *xsyncMap) DeleteExpired() {
 	c.items.Range(func(k string, v interface{}) bool {
 		i := v.(item)
 		if i.expiredWithNow(now) {
-			c.items.Delete(k)
-			if ec != nil {
-				evictedItems = append(evictedItems, kv{k, i.v})
-			}
+			// The snapshot may be stale: re-check under the key's lock and
+			// remove (and report) only the value that is really there and expired.
+			c.items.Compute(k, func(value interface{}, loaded bool) (interface{}, bool) {
+				if !loaded {
+					return nil, true
+				}
+				cur := value.(item)
+				if !cur.expiredWithNow(now) {
+					// k has a new value
+					return cur, false
+				}
+				if ec != nil {
+					evictedItems = append(evictedItems, kv{k, cur.v})
+				}
+				return nil, true
+			})
 		}
 		return true
 	})
